@@ -4,6 +4,7 @@ use crate::engine::Prop;
 
 pub mod common;
 
+pub mod c01;
 pub mod c02;
 pub mod c03;
 pub mod c16;
@@ -11,7 +12,7 @@ pub mod c17;
 pub mod c18;
 
 pub fn all() -> Vec<Box<dyn Prop>> {
-    vec![Box::new(c02::C02), Box::new(c03::C03), Box::new(c16::C16), Box::new(c17::C17), Box::new(c18::C18)]
+    vec![Box::new(c01::C01), Box::new(c02::C02), Box::new(c03::C03), Box::new(c16::C16), Box::new(c17::C17), Box::new(c18::C18)]
 }
 
 pub fn by_id(id: &str) -> Option<Box<dyn Prop>> {
